@@ -968,6 +968,12 @@ static void worker(int wid, struct mc_rec *rec)
     struct item_hdr h;
     /* one CPU per worker: the child's cooperative threads hand off on the same CPU instead of
        waking each other across (virtual) CPUs */
+    /* worker isolation (DESIGN 1.3): abstract AF_UNIX names (UX sockets, the UX leg of utls) live in the
+       network namespace and are therefore shared by every process of the machine; a private namespace per
+       worker means that executions of different workers - and of other checks running at the same time -
+       can never meet.  Needs CAP_SYS_ADMIN; when it is refused the per-pid names are all there is. */
+    if (!getenv("MCX_NO_NETNS"))
+        (void)unshare(CLONE_NEWNET);
     long ncpu = sysconf(_SC_NPROCESSORS_ONLN);
     if (ncpu > 0 && !getenv("MCX_NO_PIN")) {
         cpu_set_t cs;
@@ -1000,7 +1006,23 @@ static void worker(int wid, struct mc_rec *rec)
         __atomic_fetch_add(&S->executions, 1, __ATOMIC_RELAXED);
         __atomic_fetch_add(&S->exec_level, 1, __ATOMIC_RELAXED);
         /* divergence check */
-        if (h.len > 0 && !crashed &&
+        int harness_internal = rec->verdict == MC_INTERNAL ||
+            (rec->nviol > 0 && strncmp(rec->viol[0].signature, "internal/", 9) == 0);
+        if (harness_internal && rec->verdict != MC_INTERNAL) {
+            /* a harness set-up failure (mc_fail("internal/...")) is reported as what it is, not as the replay
+               divergence it also causes */
+            pthread_mutex_lock(&S->lock);
+            if (!S->broken) {
+                S->broken = 1;
+                snprintf(S->broken_text, sizeof S->broken_text, "harness set-up failure %s: %s",
+                         rec->viol[0].signature, rec->viol[0].text);
+            }
+            S->busy--;
+            S->stop = 1;
+            pthread_mutex_unlock(&S->lock);
+            break;
+        }
+        if (h.len > 0 && !crashed && !harness_internal &&
             (rec->verdict == MC_DIVERGED || rec->npoints < h.len ||
              rec->point_hash[h.len - 1] != h.expect)) {
             pthread_mutex_lock(&S->lock);
